@@ -14,7 +14,8 @@ EXTENDS Naturals, Sequences, FiniteSets, TLC, Json
 CONSTANTS Classes,      \* listing classes
           HealthClasses,
           Formats,      \* provider listing formats explored
-          Fields, ValueClasses   \* metrics tails: which field gets which kind of value
+          Fields, ValueClasses,  \* metrics tails: which field gets which kind of value
+          Mutations     \* GEN: how many byte-level mutations of a well-formed listing per format (class "mutated")
 
 VARIABLES last,         \* model names attributed to the endpoint under test
           phase,        \* "idle" | "listed"
@@ -25,13 +26,16 @@ vars == <<last, phase, offered, scn>>
 Init == last = {"m1", "m2"} /\ phase = "idle" /\ offered = {} /\ scn = <<>>
 
 \* the endpoint answers its next listing request with an instance of class c whose named entries are ns
-Listing(c, ns) == /\ phase' = "listed" /\ offered' = ns /\ UNCHANGED <<last, scn>>
+\* (class "mutated": a well-formed listing with random bytes flipped, cut, doubled or inserted -- nobody can say
+\* which entries a parser may legitimately take from it, so only the consistency of the views is demanded)
+AnyListing == {"*"}
+Listing(c, ns) == /\ phase' = "listed" /\ offered' = (IF c = "mutated" THEN AnyListing ELSE ns) /\ UNCHANGED <<last, scn>>
 \* the catalogue views after the listing was processed: all views agree, and what they say is either what
 \* was known before or the named entries of the new listing - never a mixture, never garbage
 Dump(perEp, byModel, count) ==
     /\ phase = "listed"
     /\ perEp = byModel /\ count = Cardinality(perEp)        \* views agree with each other
-    /\ perEp \in {last, offered}                           \* previous attribution intact, or replaced
+    /\ (offered = AnyListing \/ perEp \in {last, offered})        \* previous attribution intact, or replaced
     /\ last' = perEp /\ phase' = "idle" /\ UNCHANGED <<offered, scn>>
 \* other requests continue to be served while / after the endpoint said this
 Probe(st) == st = 200 /\ UNCHANGED vars
@@ -49,6 +53,7 @@ Consistent == last \subseteq {"m1", "m2", "m3"}
 (* GEN *)
 GenInit == /\ last = {} /\ phase = "idle" /\ offered = {}
            /\ \/ \E c \in Classes : \E f \in Formats : scn = [kind |-> "listing", cls |-> c, format |-> f]
+              \/ \E k \in 1..Mutations : \E f \in Formats : scn = [kind |-> "listing", cls |-> "mutated", format |-> f, k |-> k]
               \/ \E h \in HealthClasses : scn = [kind |-> "health", cls |-> h]
               \/ \E f \in Fields : \E v \in ValueClasses : \E p \in Formats : scn = [kind |-> "metrics", field |-> f, value |-> v, provider |-> p]
 GenNext == FALSE /\ UNCHANGED vars
